@@ -115,6 +115,28 @@ def _nonresumable():
     return ["wrap", "finalize", {"final_plan": SEQ(M("null", None, "final-cleanup"))}, body]
 
 
+def _nonresumable_toggles():
+    body = SEQ(
+        M("open_run"),
+        M("checkpoint"),
+        point(("d1",), "m1", 0.5),
+        M("clear_checkpoint"),
+        M("null", None, "unsafe-1"),
+        M("rewindable", None, False),
+        M("set", "m1", 2.0, group="z"),
+        M("wait", None, group="z"),
+        M("rewindable", None, True),
+        M("null", None, "unsafe-2"),
+        M("stage", "d2"),
+        M("sleep", None, 0.1),
+        M("unstage", "d2"),
+        M("null", None, "unsafe-3"),
+        M("sleep", None, 0.1),
+        M("close_run"),
+    )
+    return ["wrap", "finalize", {"final_plan": SEQ(M("null", None, "final-cleanup"))}, body]
+
+
 def _engine_closes():
     # the plan opens a run and ends without closing it
     return SEQ(M("stage", "d1"), M("open_run"), M("checkpoint"), point(("d1",), "m1", 0.5), point(("d1",), "m1", 1.0))
@@ -205,6 +227,7 @@ CORPUS = {
     "nested_keys": (_nested_keys(), DEV_A, 0),
     "try_finally": (_try_finally(), DEV_SYNC, 0),
     "nonresumable": (_nonresumable(), DEV_A, 0),
+    "nonresumable_toggles": (_nonresumable_toggles(), DEV_A, 0),
     "engine_closes": (_engine_closes(), DEV_A, 0),
     "monitor": (_monitor_plan(), DEV_SYNC, 0),
     "fly": (_fly_plan(), DEV_A, 0),
